@@ -10,7 +10,8 @@ def gen_script(rng, malformed=False):
     for _ in range(rng.randint(3, 30)):
         r = rng.random()
         if not live or r < 0.12:
-            lines.append(f"new c {rng.randint(-9, 9)}"); live.append(handles); handles += 1
+            kind = "v" if rng.random() < 0.3 else "c"      # Lazy::of_value / Lazy::new
+            lines.append(f"new {kind} {rng.randint(-9, 9)}"); live.append(handles); handles += 1
         elif r < 0.30:
             lines.append(f"new app {rng.randint(0, 3)} {rng.choice(live)}"); live.append(handles); handles += 1
         elif r < 0.42:
@@ -22,7 +23,7 @@ def gen_script(rng, malformed=False):
         elif len(live) > 1:
             h = rng.choice(live); live.remove(h); lines.append(f"drop {h}")
         if malformed and rng.random() < 0.1:
-            lines.append(rng.choice([f"force {handles + 3}", "drop 99", "new app 1 77", "clone x", f"new app2 0 0 {handles + 5}", "new c z"]))
+            lines.append(rng.choice([f"force {handles + 3}", "drop 99", "new app 1 77", "clone x", f"new app2 0 0 {handles + 5}", "new c z", "new v", "new v 1x"]))
     for h in live: lines.append(f"force {h}")       # every surviving handle is forced at the end
     return lines
 
@@ -36,6 +37,7 @@ def enum_scripts(depth):
             tail = [f"force {h}" for h in live]
             out.append(lines + tail + tail); return
         rec(lines + ["new c 2"], live + [nh], nh + 1)
+        rec(lines + ["new v 3"], live + [nh], nh + 1)
         for h in live:
             rec(lines + [f"new app 1 {h}"], live + [nh], nh + 1)
             rec(lines + [f"clone {h}"], live + [nh], nh + 1)
@@ -64,13 +66,16 @@ def impl_predicate(scripts, hl):
     that cell returns the same value (handle -> cell is reconstructed from the script alone)."""
     pos = 0
     for k, s in enumerate(scripts):
-        cell_of, seen, ncells = {}, {}, 0
+        cell_of, seen, ncells, preset = {}, {}, 0, set()
         nh = 0
         for j, l in enumerate(s):
             o = hl[pos + j] if pos + j < len(hl) else ""
             ws = l.split()
             if o.startswith("h="):
-                if ws[0] == "new": cell_of[nh] = ncells; ncells += 1
+                if ws[0] == "new":
+                    cell_of[nh] = ncells
+                    if ws[1] == "v": preset.add(ncells)
+                    ncells += 1
                 else: cell_of[nh] = cell_of.get(int(ws[1]))
                 nh += 1
             m = re.match(r"v=(-?\d+) runs=([\d,]*)$", o)
@@ -79,8 +84,8 @@ def impl_predicate(scripts, hl):
                 c = cell_of.get(int(ws[1]))
                 if any(x > 1 for x in runs):
                     return k, j, f"a thunk ran more than once: `{o}`"
-                if c is not None and c < len(runs) and runs[c] != 1:
-                    return k, j, f"the forced cell's thunk did not run exactly once: `{o}` (cell {c})"
+                if c is not None and c < len(runs) and runs[c] != (0 if c in preset else 1):
+                    return k, j, f"the forced cell's thunk did not run exactly once (never, for of_value): `{o}` (cell {c})"
                 if c in seen and seen[c] != m.group(1):
                     return k, j, f"two forces of one memo cell returned {seen[c]} and {m.group(1)}"
                 seen[c] = m.group(1)
